@@ -165,6 +165,9 @@ MESHES = {
     'fan': ([(0, 0), (2, 0), (2, 2), (0, 2), (1, 1)],
             [[0, 1, 4], [1, 2, 4], [2, 3, 4], [3, 0, 4]]),
     'tri': ([(0, 0), (2, 0), (1, 2)], [[0, 1, 2]]),
+    # 2 x 2 block of quads whose centre node is numbered 0: diagonal faces share node 0 and nothing else
+    'pin0': ([(1, 1), (0, 0), (1, 0), (2, 0), (2, 1), (2, 2), (1, 2), (0, 2), (0, 1)],
+             [[1, 2, 0, 8], [2, 3, 4, 0], [0, 4, 5, 6], [8, 0, 6, 7]]),
     # a row of five quads: neighbour rings propagate one face per ring
     'strip5': ([(i, 0) for i in range(6)] + [(i, 1) for i in range(6)],
                [[i, i + 1, i + 7, i + 6] for i in range(5)]),
